@@ -551,3 +551,17 @@ pub fn huge_repeat_records(tag: i64, tier: Tier, r: &mut Rng, em: &mut Emitter) 
         em.emit_k("one operation 2^32 times", tag, vec![0, s, 99, 1, 9, m, 0, 0, 2, 0, 0, 0, 0, s, 99, 1, 9, 40, 0, 0, 0, s, 98, 2, 0, s, 38, 3, 0, s, 6, 4]);
     }
 }
+
+/// The non-polling scanner has no notion of time: real time passing between two feeds (a sleep
+/// of 1.2 s; thorough also 6 s) changes nothing.
+pub fn real_time_records(tag: i64, tier: Tier, r: &mut Rng, em: &mut Emitter) {
+    let sleeps: &[i64] = if tier == Tier::Thorough { &[1200, 6000] } else { &[1200] };
+    for &ms in sleeps {
+        let c = r.below(16) as i64;
+        let s = 176 + c;
+        let (x, y, l, m) = (r.below(128) as i64, r.below(128) as i64, r.below(128) as i64, r.below(128) as i64);
+        // number, LSB, <time>, MSB (14-bit); MSB <time> after the number; increments after <time>
+        let h = vec![0, s, 99, x, 0, s, 98, y, 0, s, 38, l, 10, ms, 0, 0, 0, s, 6, m, 0, s, 96, 1, 0, s, 38, l, 0, s, 6, m];
+        em.emit_k("real-time", tag, h);
+    }
+}
